@@ -13,7 +13,14 @@
 (*         after the watchdog; the AGENT's pid - a descendant may           *)
 (*         legitimately survive, childalive is informational), what the     *)
 (*         agent saw (end of input, SIGTERM).                               *)
-(* Only the two unambiguous facts are verdicts; latency outside the window  *)
+(* Cases with in.write # "none": the agent never reads its standard input  *)
+(* and one or two goroutines push more than the pipe holds through          *)
+(* Stream.Write (one 1 MiB Write / many 8 KiB Writes / both) until they are *)
+(* parked (stuck: the byte counter stopped growing and nobody came back -   *)
+(* a gate, not a verdict); Close is then called from another goroutine, and *)
+(* once more after it returned.  wreturned / werr: every writer came back,  *)
+(* with an error, within seconds of Close's return.                         *)
+(* Only the unambiguous facts are verdicts; latency outside the window  *)
 (* the escalation model predicts is counted as drift.                       *)
 (***************************************************************************)
 EXTENDS AgentCloseProps, AgentDialProps, TraceKit
@@ -25,6 +32,7 @@ tvars == <<l, fails, drift, escalated, held, dials, dialdrift, done>>
 WellFormed(r) == /\ Has(r, "ev") /\ r.ev = "AgentClose" /\ Has(r, "in") /\ Has(r, "out")
                  /\ r.out.returned \in BOOLEAN /\ r.out.alive \in BOOLEAN /\ r.out.ms \in Nat
                  /\ r.in.child \in {"none", "inherit", "own", "dies"} /\ r.in.recv \in BOOLEAN
+                 /\ r.in.write \in {"none", "big", "many", "two"}
 \* growth: a real agent.Dial against a scripted transport (see AgentDialProps).  connect() closes the
 \* stream of every failed attempt, so when Dial has returned (and the caller has closed a returned
 \* stream) no process it started may be left: Stream.Close's guarantee seen through the dialer.
@@ -37,8 +45,9 @@ DialDrift(r) == ~(r.out.returned /\ ~r.out.offscript /\ Conforms(r.out.steps, r.
 RecFails(i, r) ==
   IF IsDial(r) THEN DialFails(i, r)
   ELSE IF ~WellFormed(r) THEN <<Fail(i, "TraceAccepted")>>
-  ELSE Chk(Want, i, "C35_Returns", C35_Returns(r.out))
+  ELSE Chk(Want, i, "C35_Returns", C35_Returns(r.out) /\ (r.in.write # "none" => r.out.close2))   \* also when called twice
     \o Chk(Want, i, "C35_Exited", C35_Exited(r.out))
+    \o Chk(Want, i, "C35_WriteUnblocked", C35_WriteUnblocked(r.out))
 
 \* latency the escalation predicts (ms), lower bound; upper bound adds generous scheduling slack
 Earliest(in) ==
